@@ -56,3 +56,12 @@ Print Assumptions C36_oracle_on_model_str.
 Theorem C36_dec_fmt_roundtrip : forall x, Forall (fun d => d < 10) (d_frac x) -> parse_dec (fmt_dec x) = Some x.
 Proof. exact dec_fmt_roundtrip. Qed.
 Print Assumptions C36_dec_fmt_roundtrip.
+
+(* ---- batched export ---- *)
+Theorem C36_concat_chunks : forall {A} (n : nat) (l : list A), concat (chunks n l) = l.
+Proof. exact @concat_chunks. Qed.
+Print Assumptions C36_concat_chunks.
+
+Theorem C36_oracle_on_model_batch : forall n, oracle (CBatch n, OBatch (model_counts n) 0 0 false) = true.
+Proof. exact oracle_on_model_batch. Qed.
+Print Assumptions C36_oracle_on_model_batch.
